@@ -1108,8 +1108,21 @@ def _jnp_filled_or_sym(c):
     return f
 
 
+def _full_reduction_of_vector(x, k):
+    """for a VECTOR of boolean scalars, axis=0 / axis=-1 is the full reduction; anything else (keepdims, where=) is another value"""
+    rest = {k_: v_ for k_, v_ in k.items() if v_ is not None and v_ is not False}
+    if not rest:
+        return True
+    if isinstance(x, (list, tuple)) and set(rest) == {'axis'}:
+        try:
+            return fz(rest['axis']) in (0, -1, (0,), (-1,))
+        except Exception:
+            return False
+    return False
+
+
 def _jnp_all(x, **k):
-    if any(v_ is not None and v_ is not False for v_ in k.values()):
+    if not _full_reduction_of_vector(x, k):
         return term('all', x, **k)                              # axis / keepdims / where: another reduction
     if isinstance(x, (list, tuple)):
         return Pred.conj([as_pred(v) for v in x])
@@ -1226,7 +1239,7 @@ def _isnan(x):
 
 
 def _jnp_any(x, **k):
-    if any(v_ is not None and v_ is not False for v_ in k.values()):
+    if not _full_reduction_of_vector(x, k):
         return term('any', x, **k)
     if isinstance(x, Sym) and x.op == 'isnan':
         return Sym('any_isnan', *x.args)
